@@ -1,4 +1,6 @@
 """C15 - ECC port: lane partition / writer-reader stride agreement, counters, byte-enable mask widths."""
+import ast
+
 from ..ruleutil import *
 from ..bits import ieval, Unresolved
 
@@ -187,8 +189,80 @@ def masks(ctx):
                   "e.g. %s)" % (len(bad_asg), "; ".join(m for m, _ in bad_asg[:3])), bad_asg[0][1], [m for m, _ in bad_asg[:20]])
 
 
+def locality_and_siblings(ctx):
+    ob4 = ctx.ob("C15.4", "lane locality of the byte enables: the stored byte enables of ECC word i depend only on the input byte enables of word i (a write that "
+                          "enables one word must not rewrite the stored code words of the others)", 4)
+    ob5 = ctx.ob("C15.5", "writer and reader halves of the ECC port are built for the same partition: identical (data_width_from, data_width_to, burst_cycles)", 1)
+    for (wf_, wt_, bc) in [c_ for c_ in CONFIGS if c_[2] > 1][:3]:
+        kw = {"data_width_from": Const(wf_), "data_width_to": Const(wt_), "burst_cycles": Const(bc)}
+        w = elab(ctx, ECC, "LiteDRAMNativePortECCW", kwargs=kw)
+        tag = "from=%d to=%d lanes=%d" % (wf_, wt_, bc)
+        wfl, wtl = wf_ // bc, wt_ // bc                   # bits per lane on both sides
+        lane_from = {(i * wfl // 8, (i + 1) * wfl // 8): i for i in range(bc)}
+        lane_to = {(i * wtl // 8, (i + 1) * wtl // 8): i for i in range(bc)}
+        bf = bt = 1
+        n = 0
+        for l in w.leaves:
+            if l.kind != "assign" or l.target is None:
+                continue
+            sb = slice_bounds(l.target)
+            if sb and sb[0] == "source.we":
+                if (sb[1], sb[2]) not in lane_to:
+                    continue
+                tl = {lane_to[(sb[1], sb[2])]}
+            elif key(l.target) == "source.we":
+                tl = set(range(bc))
+            else:
+                continue
+            n += 1
+            rl = set()
+            whole = False
+            for t_ in [c0 for c0, _ in l.guards] + ([l.value] if isinstance(l.value, V) else []):
+                for st_ in subterms(t_):
+                    b_ = slice_bounds(st_)
+                    if b_ and b_[0] == "sink.we":
+                        rl.add(lane_from.get((b_[1], b_[2]), "?"))
+                    elif isinstance(st_, (Obj, Sym)) and key(st_) == "sink.we":
+                        # whole-vector use (not as the base of a slice)
+                        whole = True
+            uses_whole = whole and not any(slice_bounds(st_) and slice_bounds(st_)[0] == "sink.we" for t_ in [c0 for c0, _ in l.guards] for st_ in subterms(t_))
+            if n <= 2:
+                ob4.instance("%s: %s" % (tag, str(l)[:100]), {"stored lanes written": sorted(tl), "input lanes read": "all" if uses_whole else sorted(map(str, rl))})
+            if uses_whole and len(tl) >= 1 and bc > 1:
+                ob4.refute("we-not-per-lane:%s" % tag, "%s: `%s` sets stored byte enables from the whole input byte-enable vector: a write enabling one ECC word rewrites the "
+                           "code words of all lanes with whatever is on the data bus" % (tag, str(l)[:140]), l.loc)
+            elif rl and "?" not in rl and (len(tl) != 1 or rl != tl):
+                ob4.refute("we-lane-mix:%s" % tag, "%s: stored byte enables of lane(s) %s depend on the input byte enables of lane(s) %s" % (tag, sorted(tl), sorted(rl)), l.loc)
+        if n == 0:
+            ob4.unknown("%s: no assignment to the stored byte enables found" % tag)
+    v = elab(ctx, ECC, "LiteDRAMNativePortECC", overrides={"port_from.data_width": Const(32), "port_to.data_width": Const(52)},
+             kwargs={"burst_cycles": Const(4), "with_error_injection": Const(False), "with_we_error_detection": Const(False)})
+    ws = [o for o in v.d.instances.values() if o.cls == "LiteDRAMNativePortECCW" and "." not in o.path]
+    rs = [o for o in v.d.instances.values() if o.cls == "LiteDRAMNativePortECCR" and "." not in o.path]
+    if ob5.need(len(ws) == 1 and len(rs) == 1, "writer / reader halves of LiteDRAMNativePortECC not found"):
+        def cfg(o):
+            # effective constructor values: explicit arguments, else the default of the formal parameter
+            out = {}
+            fm = [n_ for n_ in o.clsv.node.body if isinstance(n_, ast.FunctionDef) and n_.name == "__init__"]
+            dfl = {}
+            if fm:
+                names = [a.arg for a in fm[0].args.args]
+                for a_, d_ in zip(names[len(names) - len(fm[0].args.defaults):], fm[0].args.defaults):
+                    if isinstance(d_, ast.Constant):
+                        dfl[a_] = str(d_.value)
+            for k_ in ("data_width_from", "data_width_to", "burst_cycles"):
+                out[k_] = key(o.kwargs[k_]) if k_ in o.kwargs else dfl.get(k_)
+            return out
+        cw, cr = cfg(ws[0]), cfg(rs[0])
+        ob5.instance("ECC halves", {"writer": cw, "reader": cr})
+        if cw != cr:
+            ob5.refute("halves-differ", "the ECC writer is built with %s and the reader with %s: the two halves partition the word differently, so clean data is decoded with "
+                       "the wrong code" % (cw, cr), rs[0].loc)
+
+
 def run(ctx):
     lanes(ctx)
     counters(ctx)
     masks(ctx)
+    locality_and_siblings(ctx)
     ctx.assume("the SECDED code itself (litex.soc.cores.ecc ECCEncoder/ECCDecoder) is outside the repository and trusted")
